@@ -8,11 +8,25 @@ from ..sdenv import hdr
 from ..vloop import FakeTransport, new_loop
 
 
+def decode_back(b):
+    """the library's own decoder and option resolution on the emitted bytes"""
+    def go():
+        parsed, rest = hdr.SOMEIPSDHeader.parse(bytes(b))
+        if rest:
+            raise ValueError("rest after SD message")
+        return codec.sd_res_j(parsed.resolve_options())
+    if not b:
+        return None, "nothing"
+    return codec.attempt(go)
+
+
 def rec_build(msg, via_send=False):
     def go():
         return bytes(msg.assign_option_indexes().build())
     b, out = codec.attempt(go)
-    return {"op": "sdbuild", "msg": codec.sd_res_j(msg, v32=True), "out": out, "bytes": list(b or b""), "via": "build"}
+    back, backout = decode_back(b)
+    return {"op": "sdbuild", "msg": codec.sd_res_j(msg, v32=True), "out": out, "bytes": list(b or b""), "via": "build",
+            "back": back or {"rb": False, "uc": False, "fl": 0, "es": []}, "backout": backout}
 
 
 def rec_send(entries, rb_expected=True):
@@ -27,8 +41,9 @@ def rec_send(entries, rb_expected=True):
         h, _ = hdr.SOMEIPHeader.parse(sent[0])
         payload = list(h.payload)
     msg = hdr.SOMEIPSDHeader(entries=tuple(entries), flag_reboot=True, flag_unicast=True)
+    back, backout = decode_back(bytes(payload))
     return {"op": "sdbuild", "msg": codec.sd_res_j(msg, v32=True), "out": out if sent or out != "ok" else "nothing_sent",
-            "bytes": payload, "via": "send_sd"}
+            "bytes": payload, "via": "send_sd", "back": back or {"rb": False, "uc": False, "fl": 0, "es": []}, "backout": backout}
 
 
 def special_cases(rng):
